@@ -253,7 +253,9 @@ func c01Run(c *Ctx) {
 						}
 					}
 				}
-				c.Sample(func() any { return map[string]any{"expr": min, "full": full, "allowed_lists": "all 15 subsets of atoms"} })
+				c.Sample(func() any {
+					return map[string]any{"expr": min, "full": full, "allowed_lists": "all 15 subsets of atoms"}
+				})
 			}
 		}
 	}
@@ -325,7 +327,9 @@ func c01Run(c *Ctx) {
 					}
 				}
 			}
-			c.Sample(func() any { return map[string]any{"expr": min, "allowed_lists": fmt.Sprintf("all %d lists of length <= %d over the 14 entries", len(lists), pl.listLen)} })
+			c.Sample(func() any {
+				return map[string]any{"expr": min, "allowed_lists": fmt.Sprintf("all %d lists of length <= %d over the 14 entries", len(lists), pl.listLen)}
+			})
 		}
 	}
 }
